@@ -612,6 +612,15 @@ def call_fnlike(ex, st, f, argvals, cont, dty=None):
     if isinstance(fv, Obj) and fv.kind == 'fnitem':
         canon = ex.canon_call(fv.data)
         m = ex.models.get(canon[0])
+        if canon[3] in ('from', 'into') and canon[2] and canon[1]:
+            # conversions with a body in the crate are executed (the generic From/Into model rewrites the
+            # pending call site and must not be used from inside another model)
+            import smodels
+            ta = type_args(canon[2])
+            d0 = smodels.find_from(ex, canon[1], ta[0]) if ta and canon[3] == 'from' else None
+            if d0 is not None:
+                ex.new_frame(st, d0, list(argvals), on_return=cont)
+                return PUSHED
         if m is None:
             for rx, fnm in ex.model_patterns:
                 if rx.search(canon[4]) or rx.search(canon[0]):
@@ -625,6 +634,10 @@ def call_fnlike(ex, st, f, argvals, cont, dty=None):
                 raise Fork([(c, (lambda k: (lambda s: cont(ex, s, k(s))))(k)) for c, k in fk.alts])
             return cont(ex, st, r)
         d = ex.find_def(canon[0], nargs=len(argvals))
+        if d is None and canon[3] == 'from' and canon[2] and canon[1]:
+            import smodels
+            ta = type_args(canon[2])
+            d = smodels.find_from(ex, canon[1], ta[0]) if ta else None
         if d is not None:
             ex.new_frame(st, d, list(argvals), on_return=cont)
             return PUSHED
